@@ -29,6 +29,25 @@ def _unicode_decode_error(*args):
     return UnicodeDecodeError('utf-8', b'\xff', 0, 1, 'injected')
 
 
+def _syntax_error(*args):
+    # an expression-parser style user class; 'odd' location fields as user code may set them
+    if not args:
+        return SyntaxError()
+    if len(args) == 1 and isinstance(args[0], str) and len(args[0]) < 40:
+        return SyntaxError(args[0], ('<expr>', 1, 2.5, ['tok', 'en']))
+    return SyntaxError(*args)
+
+
+def _os_error(*args):
+    if len(args) == 1 and isinstance(args[0], str):
+        return FileNotFoundError(2, args[0], '/no/such/file')
+    return OSError(*args)
+
+
+def _exception_group(*args):
+    return ExceptionGroup(str(args[0]) if args else 'group', [ValueError('inner'), KeyError(3)])
+
+
 EXC_TABLE = {
     'ValueError': ValueError,
     'TypeError': TypeError,
@@ -44,6 +63,9 @@ EXC_TABLE = {
     'NotImplementedError': NotImplementedError,
     'UnicodeDecodeError': _unicode_decode_error,
     'UserBoom': UserBoom,
+    'SyntaxError': _syntax_error,
+    'FileNotFoundError': _os_error,
+    'ExceptionGroup': _exception_group,
 }
 
 # argument shapes an exception may be constructed with
